@@ -10,7 +10,8 @@
 (***************************************************************************)
 EXTENDS Naturals, Sequences, FiniteSets, TLC
 
-CONSTANTS Threads, Keys, Locked, OpsPerThread
+CONSTANTS Threads, Keys, Locked, OpsPerThread,
+          OpSet        \* the operations the threads may call (a subset of Ops)
 
 None == "none"
 NoVal == 0          \* values are positive integers
@@ -36,7 +37,7 @@ Init ==
 
 Start(t) ==
   /\ pc[t] = "idle" /\ done[t] < OpsPerThread
-  /\ \E o \in Ops, k \in Keys, v \in {1, 5} :
+  /\ \E o \in OpSet, k \in Keys, v \in {1, 5} :
         op' = [op EXCEPT ![t] = [o |-> o, k |-> k, v |-> v]]
   /\ pc' = [pc EXCEPT ![t] = "lock"]
   /\ UNCHANGED <<order, data, writer, readers, tmp, done, incs, seen>>
